@@ -2,6 +2,7 @@ package props
 
 import (
 	"fmt"
+	"strings"
 
 	"github.com/RoaringBitmap/roaring"
 	segment "github.com/blugelabs/bluge_segment_api"
@@ -686,6 +687,177 @@ func largeReuse(c *explore.Ctx) {
 	}
 }
 
+// livePairBig: LIVE-PAIR-BIG - two postings iterators alive at the same time over lists whose
+// location chunks decompress to 150-300 KiB: one iterator has been used before and is handed back as
+// prealloc (whatever it gave up on reset must really be given up), is stepped k postings, then a
+// fresh iterator walks a whole list, then the first continues. Both must deliver what fresh,
+// undisturbed iterators deliver.
+func livePairBig(c *explore.Ctx) {
+	scope := "LIVE-PAIR-BIG"
+	if !c.MineIdx(scope, 0) {
+		return
+	}
+	n := 600
+	batch := make([]model.Doc, n)
+	x := uint32(13)
+	mkLocs := func(k int) []model.Loc {
+		ls := make([]model.Loc, k)
+		for i := range ls {
+			x = x*1664525 + 1013904223
+			s := int(x>>8) % 5000000
+			ls[i] = model.Loc{P: i + 1 + int(x>>28), S: s, E: s + 1 + int(x>>24)%9}
+		}
+		return ls
+	}
+	for i := range batch {
+		ts := []model.Term{{T: "all", Freq: 48, Locs: mkLocs(48)}}
+		if i%2 == 0 {
+			ts = append(ts, model.Term{T: "half", Freq: 44, Locs: mkLocs(44)})
+		}
+		batch[i] = model.Doc{{N: "a", Len: 92, Terms: ts}}
+	}
+	built, err := build(batch, 1025)
+	if err != nil {
+		c.Violate(scope, 0, sigOf("C13", "live-pair-build", "error: "+err.Error()), err.Error(), "")
+		return
+	}
+	img, _, err := persist(built)
+	if err != nil {
+		c.Violate(scope, 0, sigOf("C13", "live-pair-build", "error: "+err.Error()), err.Error(), "")
+		return
+	}
+	step := func(it segment.PostingsIterator, k int, h *uint64, cnt *int) string {
+		for i := 0; k < 0 || i < k; i++ {
+			p, err := it.Next()
+			if err != nil {
+				return fmt.Sprintf("ERR after %d: %v", *cnt, err)
+			}
+			if p == nil {
+				return ""
+			}
+			*cnt++
+			*h = (*h ^ explore.Hash(fmt.Sprint(obs.CopyPosting(p)))) * 1099511628211
+		}
+		return ""
+	}
+	list := func(seg segment.Segment, term string) (segment.PostingsList, error) {
+		d, err := seg.Dictionary("a")
+		if err != nil {
+			return nil, err
+		}
+		return d.PostingsList([]byte(term), nil, nil)
+	}
+	terms := []string{"all", "half"}
+	for form := 0; form < 2; form++ {
+		seg := built
+		if form == 1 {
+			if seg, err = loadMem(img); err != nil {
+				c.Violate(scope, 0, sigOf("C13", "live-pair-build", "error: "+err.Error()), err.Error(), "")
+				return
+			}
+		}
+		fresh := map[string]string{}
+		for _, t := range terms {
+			var out string
+			msg := explore.Guard(func() {
+				pl, err := list(seg, t)
+				if err != nil {
+					out = "ERR " + err.Error()
+					return
+				}
+				it, err := pl.Iterator(true, true, true, nil)
+				if err != nil {
+					out = "ERR " + err.Error()
+					return
+				}
+				h, cnt := uint64(14695981039346656037), 0
+				if e := step(it, -1, &h, &cnt); e != "" {
+					out = e
+					return
+				}
+				out = fmt.Sprintf("count=%d hash=%016x", cnt, h)
+			})
+			if msg != "" || strings.HasPrefix(out, "ERR") {
+				c.Violate(scope, 0, sigOf("C13", "live-pair-fresh", "error: "+msg+out), msg+out, "")
+				return
+			}
+			fresh[t] = out
+		}
+		for _, ta := range terms { // the list the first iterator walked before it is reused
+			for _, tb := range terms { // the list the reused iterator walks
+				for _, tc := range terms { // the list the second, fresh iterator walks meanwhile
+					for _, k := range []int{0, 1, 10, 299} {
+						c.Eval()
+						c.R.Distinct++
+						c.Nontrivial()
+						c.R.Transitions += 4
+						cas := fmt.Sprintf("LIVE-PAIR-BIG form=%d: iterator walks %q, is reused for %q and stepped %d postings; a fresh iterator walks %q; the first continues", form, ta, tb, k, tc)
+						var gotB, gotC string
+						msg := explore.Guard(func() {
+							pa, err := list(seg, ta)
+							if err != nil {
+								gotB = "ERR " + err.Error()
+								return
+							}
+							it, err := pa.Iterator(true, true, true, nil)
+							if err != nil {
+								gotB = "ERR " + err.Error()
+								return
+							}
+							h0, c0 := uint64(0), 0
+							step(it, -1, &h0, &c0)
+							pb, err := list(seg, tb)
+							if err != nil {
+								gotB = "ERR " + err.Error()
+								return
+							}
+							it, err = pb.Iterator(true, true, true, it)
+							if err != nil {
+								gotB = "ERR " + err.Error()
+								return
+							}
+							hb, cb := uint64(14695981039346656037), 0
+							if e := step(it, k, &hb, &cb); e != "" {
+								gotB = e
+								return
+							}
+							pc, err := list(seg, tc)
+							if err != nil {
+								gotC = "ERR " + err.Error()
+								return
+							}
+							it2, err := pc.Iterator(true, true, true, nil)
+							if err != nil {
+								gotC = "ERR " + err.Error()
+								return
+							}
+							hc, cc := uint64(14695981039346656037), 0
+							if e := step(it2, -1, &hc, &cc); e != "" {
+								gotC = e
+								return
+							}
+							gotC = fmt.Sprintf("count=%d hash=%016x", cc, hc)
+							if e := step(it, -1, &hb, &cb); e != "" {
+								gotB = e
+								return
+							}
+							gotB = fmt.Sprintf("count=%d hash=%016x", cb, hb)
+						})
+						if msg != "" {
+							c.Violate(scope, 0, sigOf("C13", "live-pair", "error: "+msg), msg, cas)
+							return
+						}
+						if gotB != fresh[tb] || gotC != fresh[tc] {
+							c.Violate(scope, 0, "C13/live-pair/wrong", fmt.Sprintf("reused iterator delivered %s (fresh: %s); the fresh iterator delivered %s (undisturbed: %s)", gotB, fresh[tb], gotC, fresh[tc]), cas)
+							return
+						}
+					}
+				}
+			}
+		}
+	}
+}
+
 func dvReuse(c *explore.Ctx) {
 	dvReuseSparse(c)
 	dvReuseBigChunk(c)
@@ -779,10 +951,11 @@ func dvReuse(c *explore.Ctx) {
 }
 
 func runC13(c *explore.Ctx) {
-	if !c.Replay || c.ReplayScope == "DV-REUSE" || c.ReplayScope == "STORED-ACROSS" || c.ReplayScope == "LARGE-REUSE" {
+	if !c.Replay || c.ReplayScope == "DV-REUSE" || c.ReplayScope == "STORED-ACROSS" || c.ReplayScope == "LARGE-REUSE" || c.ReplayScope == "LIVE-PAIR-BIG" {
 		dvReuse(c)
 		storedAcross(c)
 		largeReuse(c)
+		livePairBig(c)
 		if c.Replay {
 			return
 		}
